@@ -392,7 +392,7 @@ def do_sample_measurements_ops(ctx, rng, psi, vec, sites, kind, qt, case):
         for n in sorted(s.opnames):
             op = s.get_op(n)
             o = op.to_ndarray()
-            if np.any(op.qtotal != 0) or np.linalg.norm(o - o.conj().T) > 1e-13:
+            if np.any(op.qtotal != 0) or not (np.linalg.norm(o - o.conj().T) <= 1e-13):
                 continue
             w = np.linalg.eigvalsh(o)
             if len(w) > 1 and np.min(np.diff(np.sort(w))) < 1e-6:
@@ -416,7 +416,7 @@ def do_sample_measurements_ops(ctx, rng, psi, vec, sites, kind, qt, case):
             o = sites[k].get_op(ops[(k - first) % len(ops)]).to_ndarray()
             ew, ev = np.linalg.eigh(o)
             m = int(np.argmin(np.abs(ew - lam)))
-            if abs(ew[m] - lam) > 1e-9:
+            if not (abs(ew[m] - lam) <= 1e-9):
                 ctx.violation('sample_measurements(ops):outcome-not-an-eigenvalue', 'site %d: %r is no eigenvalue of %r (%r)' %
                               (k, lam, ops[(k - first) % len(ops)], ew.tolist()), case)
                 return
@@ -552,7 +552,7 @@ def do_get_rho_segment(ctx, rng, psi, vec, sites, kind, qt, case):
     M = np.transpose(vec, seg + rest).reshape(int(np.prod([sites[k].dim for k in seg])), -1)
     exp = (M @ M.conj().T)
     d = exp.shape[0]
-    if np.linalg.norm(r.reshape(d, d) - exp) > 1e-9:
+    if not (np.linalg.norm(r.reshape(d, d) - exp) <= 1e-9):
         ctx.violation('get_rho_segment:wrong', '|rho - dense| = %g' % np.linalg.norm(r.reshape(d, d) - exp), case)
         return
     if n == 1 or seg == list(range(seg[0], seg[0] + n)):
@@ -561,7 +561,7 @@ def do_get_rho_segment(ctx, rng, psi, vec, sites, kind, qt, case):
             w = np.linalg.eigvalsh(exp)
             w = w[w > 1e-14]
             e = -np.sum(w * np.log(w))
-            if abs(np.asarray(S).ravel()[0] - e) > 1e-8:
+            if not (abs(np.asarray(S).ravel()[0] - e) <= 1e-8):
                 ctx.violation('entanglement_entropy_segment:wrong', 'got %r expected %r' % (S, e), case)
         except Exception as ex:
             ctx.violation('entanglement_entropy_segment:raises-%s' % type(ex).__name__, traceback.format_exc()[-400:], case)
@@ -602,12 +602,12 @@ def do_charge_statistics(ctx, rng, psi, vec, sites, kind, qt, case):
         mean = sum(np.array(k) * probs[k] for k in ks)
         var = sum((np.array(k) - mean)**2 * probs[k] for k in ks)
         v = np.asarray(psi.charge_variance(bond))
-        if np.max(np.abs(v - var)) > 1e-8:
+        if not (np.max(np.abs(v - var)) <= 1e-8):
             ctx.violation('charge_variance:wrong', 'got %r expected %r' % (v.tolist(), var.tolist()), case)
         gk = sorted(got)
         shift = np.array(gk[0]) - np.array(ks[0])
         a = np.asarray(psi.average_charge(bond))
-        if np.max(np.abs(a - (mean + shift))) > 1e-8:
+        if not (np.max(np.abs(a - (mean + shift))) <= 1e-8):
             ctx.violation('average_charge:wrong', 'got %r expected %r (+gauge shift %r)' % (a.tolist(), mean.tolist(), shift.tolist()), case)
 
 
@@ -658,6 +658,6 @@ def do_mutinf(ctx, rng, psi, vec, sites, kind, qt, case):
 
     for (a, b), val in zip(np.asarray(coords).tolist(), np.asarray(mi).tolist()):
         exp = ent([a]) + ent([b]) - ent([a, b])
-        if abs(val - exp) > 1e-8:
+        if not (abs(val - exp) <= 1e-8):
             ctx.violation('mutinf_two_site:wrong', 'I(%d,%d) = %r expected %r' % (a, b, val, exp), case)
             return
